@@ -24,6 +24,9 @@ CHECKS = {
     'C05': dict(category='exploration', technique='exhaustive enumeration of rule shapes (<=4 nodes, <=4 edges) x nonterminal masks x 3 methods x 4 entry points; harness-side inlining + canonical forms; tree_decomposition spy',
                 text='Every right-hand-side shape below the bound, in two node numberings, with terminal / partly / fully nonterminal edges whose names collide with the fresh-name scheme, is factorized by the real code through factorize_rule (with and without labels), factorize_hrg (also on HRG.copy()) and factorize_fgg with each method; fresh nonterminals are inlined by the harness and the result compared with the original rule up to isomorphism, per left-hand side and in order; widths, name freshness, labels argument, kept interpretation, equal sum-product and the forwarded method are checked.',
                 note='Trusted: mc.canon. Shapes are enumerated up to isomorphism (two numberings each); bounds in evidence.', design='3/C05'),
+    'C14': dict(category='exploration', technique='exhaustive enumeration of grammars x id masks x domain classes x weight representations, of all json_to_weights specifications up to term weight 3, and of all out-of-range node numbers',
+                text='Every single-rule FGG over Shapes(3,2,2) with every explicit/implicit id mask, three domain classes and every weight representation (lists, tensors, all patterned tensors of the weight shape incl. diagonal/permuted/stride-0/one-hot with inf and 0), plus multi-rule grammars, is serialised by the real fgg_to_json, passed through json.dumps/loads and reloaded; the result is compared rule by rule up to isomorphism (explicit ids kept), with domains, dense weights, sum-product and verbatim second round trip; every weight specification is compared with a harness interpreter of the axis grammar; every out-of-range node number must raise ValueError.',
+                note='Trusted: mc.canon and the axis-grammar interpreter (offset/stride semantics of the module docstring).', design='3/C14'),
 }
 
 ALL = ['C%02d' % i for i in range(1, 21)]
